@@ -173,6 +173,16 @@ def judge(root, before, after, named, mounts, extra_allowed_dirs=()):
             new_infos.append((T, N))
     used_payloads = set()
     used_infos = set()
+    # a new pair whose .trashinfo names the location of one argument belongs to
+    # that argument; it is never offered to another one as a content match
+    owner = {}
+    for (T, N) in set(new_payloads) | set(new_infos):
+        for idx, nm in enumerate(named):
+            if nm.loc and nm.kind != 'missing':
+                ok, _why = _info_names_loc(root, after, T, N, nm.loc, mounts)
+                if ok:
+                    owner[(T, N)] = idx
+                    break
     outcomes = []
     problems = []
     explained_removed = set()
@@ -213,8 +223,11 @@ def judge(root, before, after, named, mounts, extra_allowed_dirs=()):
         gone = loc not in after
         # candidate pairs for this argument
         cands = []
+        me = named.index(nm)
         for (T, N) in new_payloads:
             if (T, N) in used_payloads:
+                continue
+            if owner.get((T, N), me) != me:
                 continue
             if Wd.same_tree(bt, Wd.subtree(after, T + '/files/' + N)):
                 ok, why = _info_names_loc(root, after, T, N, loc, mounts)
@@ -225,6 +238,8 @@ def judge(root, before, after, named, mounts, extra_allowed_dirs=()):
         info_for_loc = []
         for (T, N) in new_infos:
             if (T, N) in used_infos:
+                continue
+            if owner.get((T, N), me) != me:
                 continue
             ok, why = _info_names_loc(root, after, T, N, loc, mounts)
             if ok:
